@@ -148,7 +148,7 @@ func check(c *Ctx, r *Report) error {
 	r.Coverage["direct_oracles"] = x.oracles
 	r.Coverage["bezier_vertices_checked"] = x.st.verts
 	r.Coverage["bezier_last_vertex_equal_only_within_rounding"] = x.st.lastInexact
-	r.Rule = "polygon builders: three-vertex corners A, V.Smooth(r,n)|V.Chamfer(s), B with interior angles 1..179 degrees (plus 0.1/179.9), both turning directions, edges long / either one shorter than the tangent distance / on the borderline, radii from 1e-6 of the edge to too large, facets 1..16, random and axis-aligned dyadic placement; two-vertex arcs with radius/chord from the exact semicircle limit (all chord directions) to 100, both signs, facets 1..16, chords longer than the diameter (model comparison only); Rel/Polar mixes open/closed/reversed incl. the panicking and erroneous ones; closed and open polygons mixing smoothed, chamfered, arc and plain vertices (adjacent fillets, arcs into the first vertex); zero radius/facet no-ops; Nagon 0..64 sides. Bezier: spans of degree 1..4 from Add/Mid/HandleFwd/HandleRev/Handle, open/closed, 1..6 spans, repeated end points (point spans: leading, inner, trailing), loops and cusps (recursion limit), dyadic-exact regime (vertices must equal the rational de Casteljau point EXACTLY) and rounding regime (1e-9 of the coordinate scale), random / all-low / all-high perturbation draws, malformed curves (error / panic outcomes). non-trivial = polygon with >= 2 vertices, n-gon with >= 3 sides, bezier that produced >= 2 vertices; distinct by exact input bits."
+	r.Rule = "polygon builders: three-vertex corners A, V.Smooth(r,n)|V.Chamfer(s), B with interior angles 1..179 degrees (plus 0.1/179.9), both turning directions, edges long / either one shorter than the tangent distance / on the borderline, radii from 1e-6 of the edge to too large, facets 1..16, random and axis-aligned dyadic placement; two-vertex arcs with radius/chord from the exact semicircle limit (all chord directions) to 100, both signs, facets 1..16, chords longer than the diameter (model comparison only); Rel/Polar mixes open/closed/reversed incl. the panicking and erroneous ones; polygons with 2..6 arc segments (stadiums, lenses, scalloped rings, arcs late in the list, up to 40 facets: every arc vertex must be preceded by its facets-1 circle points, vertex count exact); closed and open polygons mixing smoothed, chamfered, arc and plain vertices (adjacent fillets, arcs into the first vertex); zero radius/facet no-ops; Nagon 0..64 sides. Bezier: spans of degree 1..4 from Add/Mid/HandleFwd/HandleRev/Handle, open/closed, 1..6 spans, repeated end points (point spans: leading, inner, trailing), closed curves whose first/last Mid control point sits on (or within 1e-9 of) the first vertex (teardrops, closing quadratic/cubic/quartic), loops and cusps (recursion limit), dyadic-exact regime (vertices must equal the rational de Casteljau point EXACTLY) and rounding regime (1e-9 of the coordinate scale), random / all-low / all-high perturbation draws, malformed curves (error / panic outcomes). non-trivial = polygon with >= 2 vertices, n-gon with >= 3 sides, bezier that produced >= 2 vertices; distinct by exact input bits."
 	r.Trusted = append(r.Trusted,
 		"hand model coq/Sdf/Build.v, coq/Sdf/Bezier.v tied by differential execution at FOps on every run (bit-exact expected, 1e-12 relative tolerated, counted separately)",
 		"Coq port of Go math.Sin/Cos/Tan/Acos/Sqrt/Abs/Max (coq/Num/GoMath.v, checked by property GOMATH)",
@@ -262,6 +262,74 @@ func genPoly(c *Ctx, rng *Rng, x *runner) {
 	for k := 0; k < 8; k++ { // chord longer than the diameter, zero radius / facets: model comparison
 		s := polySpec{V: []vtx{{X: 0, Y: 0}, {X: 3, Y: 1, Ops: []vop{{Op: "arc", A: []float64{1, -1.5, 0.1, 0, 2}[k%5], N: []int{3, 5, 0}[k%3]}}}}}
 		x.poly("arc/invalid-or-noop", s)
+	}
+
+	// several arc segments in one polygon: stadiums, lenses, scalloped rings, arcs late in the list,
+	// facet counts well above the number of vertices (createArcs must come back for the arc
+	// vertices that earlier insertions pushed beyond the original length)
+	for k := 0; k < TierN(c.Tier, 60, 600, 200); k++ {
+		var s polySpec
+		R := rng.Uniform(1, 20)
+		cx, cy := rng.Uniform(-10, 10), rng.Uniform(-10, 10)
+		if k%6 == 5 {
+			R, cx, cy = float64(rng.Range(1, 16)), rng.Dyadic(8, 2), rng.Dyadic(8, 2)
+		}
+		sg := func() float64 { return float64(1 - 2*rng.Intn(2)) }
+		nf := func() int { return []int{2, 3, 5, 8, 16, 40}[rng.Intn(6)] }
+		name := ""
+		switch k % 6 {
+		case 0: // stadium: two straight sides, two semicircular (or flatter) ends
+			w, ratio := R*rng.Uniform(0.3, 1), []float64{0.5, 0.6, 1, 3}[rng.Intn(4)]
+			s.V = []vtx{{X: cx - R, Y: cy - w}, {X: cx + R, Y: cy - w},
+				{X: cx + R, Y: cy + w, Ops: []vop{{Op: "arc", A: sg() * 2 * w * ratio, N: nf()}}},
+				{X: cx - R, Y: cy + w},
+				{X: cx - R, Y: cy - w, Ops: []vop{{Op: "arc", A: sg() * 2 * w * ratio, N: nf()}}}}
+			s.Closed = rng.Bool()
+			if s.Closed {
+				s.V[0].Ops, s.V = s.V[4].Ops, s.V[:4] // the closing arc runs into vertex 0
+			}
+			name = "stadium"
+		case 1: // lens: two vertices, both segments arcs (closed)
+			al := rng.Uniform(0, 2*math.Pi)
+			px, py := pol(al)
+			ratio := []float64{0.5, 0.55, 0.8, 2, 10}[rng.Intn(5)]
+			s.V = []vtx{{X: cx - R*px, Y: cy - R*py, Ops: []vop{{Op: "arc", A: sg() * 2 * R * ratio, N: nf()}}},
+				{X: cx + R*px, Y: cy + R*py, Ops: []vop{{Op: "arc", A: sg() * 2 * R * ratio, N: nf()}}}}
+			s.Closed = true
+			name = "lens"
+		case 2, 5: // scalloped ring: every segment of a regular-ish m-gon is an arc
+			m := rng.Range(3, 6)
+			for i := 0; i < m; i++ {
+				px, py := pol((float64(i) + rng.Uniform(-0.2, 0.2)) * 2 * math.Pi / float64(m))
+				s.V = append(s.V, vtx{X: cx + R*px, Y: cy + R*py, Ops: []vop{{Op: "arc", A: sg() * R * rng.Uniform(1.05, 3), N: nf()}}})
+			}
+			if k%6 == 5 {
+				for i := range s.V {
+					s.V[i].X, s.V[i].Y = math.Round(s.V[i].X*4)/4, math.Round(s.V[i].Y*4)/4
+				}
+			}
+			s.Closed = k%4 != 1
+			name = "scalloped"
+		default: // a ring of plain vertices with 2..6 arcs, the later vertices preferred
+			m := rng.Range(4, 12)
+			na := rng.Range(2, 6)
+			for i := 0; i < m; i++ {
+				px, py := pol((float64(i) + rng.Uniform(-0.3, 0.3)) * 2 * math.Pi / float64(m))
+				rr := R * rng.Uniform(0.6, 1.2)
+				s.V = append(s.V, vtx{X: cx + rr*px, Y: cy + rr*py})
+			}
+			for j := 0; j < na; j++ {
+				i := m - 1 - rng.Intn((m+1)/2)
+				if k%6 == 4 {
+					i = rng.Intn(m)
+				}
+				s.V[i].Ops = []vop{{Op: "arc", A: sg() * 2.4 * R * rng.Uniform(1, 4), N: nf()}}
+			}
+			s.Closed = rng.Bool()
+			name = "ring"
+		}
+		s.Reverse = rng.Intn(6) == 0
+		x.poly("multiarc/"+name, s)
 	}
 
 	// Rel / Polar
@@ -396,6 +464,51 @@ func genBezier(c *Ctx, rng *Rng, x *runner) {
 		}
 		x.bezier("multi/"+name, s)
 	}
+	// closed curves whose control points coincide with end points: the last specified vertex a
+	// Mid() at (or within 1e-9 / 1e-10 of) the first vertex (teardrop cubic P2 = P3 = start, closing
+	// quadratic whose control point is the start corner), the first Mid() at the first vertex,
+	// repeated vertices - closure() must still append the closing end point
+	for k := 0; k < TierN(c.Tier, 48, 400, 150); k++ {
+		exact := k%2 == 0
+		s := bezSpec{Exact: exact, Closed: k%8 != 7, Draw: draw(k / 3), Seed: rng.U64() % 1000000}
+		px, py := coord(exact)
+		mid := []bop{{Op: "mid"}}
+		pt := func() bvtx { qx, qy := coord(exact); return bvtx{X: qx, Y: qy} }
+		mpt := func() bvtx { v := pt(); v.Ops = mid; return v }
+		first := bvtx{X: px, Y: py}
+		atFirst := bvtx{X: px, Y: py, Ops: mid}
+		if !exact && k%3 == 1 { // within the closure tolerance of the first vertex, not equal to it
+			atFirst.X += []float64{1e-10, -3e-10, 9e-10}[k/3%3]
+		}
+		name := ""
+		switch k / 2 % 6 {
+		case 0: // teardrop cubic: P0, P1, P2 = P0 (+ the closing P3 = P0)
+			s.V = []bvtx{first, mpt(), atFirst}
+			name = "teardrop"
+		case 1: // some spans, then a closing quadratic whose control point is the start corner
+			s.V = []bvtx{first, mpt(), pt(), pt(), atFirst}
+			name = "closing-quadratic"
+		case 2: // closing cubic / quartic ending in a control point at the start
+			s.V = []bvtx{first, pt(), mpt(), atFirst}
+			if k%4 < 2 {
+				s.V = []bvtx{first, pt(), mpt(), mpt(), atFirst}
+			}
+			name = "closing-cubic-quartic"
+		case 3: // the first control point at the first vertex (zero start tangent)
+			s.V = []bvtx{first, atFirst, mpt(), pt(), mpt()}
+			name = "first-mid-at-start"
+		case 4: // both: leaves and returns with zero tangent; repeated control points inside
+			q := mpt()
+			s.V = []bvtx{first, atFirst, q, q, pt(), mpt(), atFirst}
+			name = "both-ends"
+		default: // repeated end points and a last Mid on the previous end point (not the first)
+			e := pt()
+			s.V = []bvtx{first, mpt(), e, e, pt(), bvtx{X: e.X, Y: e.Y, Ops: mid}}
+			name = "repeated"
+		}
+		x.bezier("coincident/"+name, s)
+	}
+
 	// point spans: leading, inner, trailing, all
 	for k := 0; k < 8; k++ {
 		A, B, C := bvtx{X: 0, Y: 0}, bvtx{X: 1, Y: 2}, bvtx{X: 3, Y: -1}
